@@ -1326,7 +1326,7 @@ class UFOWriter(UFOReader):
             groupsNew[key] = list(value)
         if groupsNew:
             self._writePlist(GROUPS_FILENAME, groupsNew)
-        elif self._havePreviousFile:
+        else:
             self.removePath(GROUPS_FILENAME, force=True, removeEmptyParents=False)
 
     # fontinfo.plist
@@ -1431,7 +1431,7 @@ class UFOWriter(UFOReader):
             kerningDict[left][right] = value
         if kerningDict:
             self._writePlist(KERNING_FILENAME, kerningDict)
-        elif self._havePreviousFile:
+        else:
             self.removePath(KERNING_FILENAME, force=True, removeEmptyParents=False)
 
     # lib.plist
@@ -1452,7 +1452,7 @@ class UFOWriter(UFOReader):
                 raise UFOLibError(message)
         if libDict:
             self._writePlist(LIB_FILENAME, libDict)
-        elif self._havePreviousFile:
+        else:
             self.removePath(LIB_FILENAME, force=True, removeEmptyParents=False)
 
     # features.fea
@@ -1471,7 +1471,7 @@ class UFOWriter(UFOReader):
                 raise UFOLibError("The features are not text.")
         if features:
             self.writeBytesToPath(FEATURES_FILENAME, features.encode("utf8"))
-        elif self._havePreviousFile:
+        else:
             self.removePath(FEATURES_FILENAME, force=True, removeEmptyParents=False)
 
     # glyph sets & layers
